@@ -288,8 +288,8 @@ class Case:
 
 def enumerate_specs(tier):
     specs = []
-    for epochs in (0, 1, 2):
-        for nb in (1, 2):
+    for epochs in ((0, 1, 2) if tier == "quick" else (0, 1, 2, 3)):
+        for nb in ((1, 2) if tier == "quick" else (1, 2, 3)):
             for val in (False, True):
                 if tier == "quick" and epochs == 2 and nb == 2 and val:
                     continue
